@@ -16,6 +16,7 @@ import (
 	"go/types"
 	"path/filepath"
 	"strings"
+	"sync"
 
 	"golang.org/x/tools/go/ast/astutil"
 )
@@ -213,7 +214,33 @@ func parseTypeExpr(s string) (ast.Expr, error) {
 
 // instrumentPackage rewrites every real source file of the package under test
 // and every harness file. It returns original path -> instrumented text.
+//
+// The rewrite mutates the loaded syntax trees in place, so it is done exactly
+// once per load and the result is shared by every replay of that load (a
+// second pass over the same trees would nest the hooks and shift every point
+// number: replays of a second counterexample then diverged).
 func instrumentPackage(l *Loaded) (map[string][]byte, error) {
+	instrOnce.Lock()
+	defer instrOnce.Unlock()
+	if r, ok := instrCache[l]; ok {
+		return r.m, r.err
+	}
+	m, err := instrumentPackageOnce(l)
+	instrCache[l] = instrResult{m, err}
+	return m, err
+}
+
+type instrResult struct {
+	m   map[string][]byte
+	err error
+}
+
+var (
+	instrOnce  sync.Mutex
+	instrCache = map[*Loaded]instrResult{}
+)
+
+func instrumentPackageOnce(l *Loaded) (map[string][]byte, error) {
 	out := map[string][]byte{}
 	p := l.MainPkg
 	for i, f := range p.Syntax {
